@@ -40,7 +40,9 @@ def expand(raw):
     return bytes(out), crs
 
 
-def script_of(hist):
+def script_of(hist, fail=False):
+    """fail: after every step the user also types a command nobody takes - the driver answers with the configured
+    DefaultFailMsg, which goes through add_vmessage() (the formatted twin of add_message())"""
     ops = ["proj users", "backend", "connect u1", "cycle", "line u1 name u1", "cycle", "cycle"]
     m = 0
     for s in hist:
@@ -51,6 +53,8 @@ def script_of(hist):
             m += 1
             cmd += ";wr:%d:%d:n" % (m, s["len2"])
         ops += ["line u1 " + cmd, "cycle"]
+        if fail:
+            ops += ["line u1 zz", "cycle"]
         a = s["after"]
         if a == "unblock":
             ops += ["unblock u1", "cycle"]
@@ -68,7 +72,7 @@ def script_of(hist):
     return ops
 
 
-def project(ex):
+def project(ex, failtext=None):
     """returns (abstract events, info) for user u1, starting after the connection setup"""
     evs = ex["events"]
     msgs = []      # dict(exp, crs, begin_idx, end_idx)
@@ -100,6 +104,13 @@ def project(ex):
                 exp, crs = b"", set()     # NET_DEAD: add_message() returns at once, nothing is offered to the buffer
             msgs.append(dict(exp=exp, crs=crs, kind="wr"))
             out_idx.append(("wb", len(msgs) - 1, i))
+        elif e == "FailCmd" and failtext is not None and ev.get("u") == "u1":
+            exp, crs = expand(failtext + b"\n")       # written by the driver (notify_no_command -> add_vmessage), like the echo
+            if isdead:
+                exp, crs = b"", set()
+            msgs.append(dict(exp=exp, crs=crs, kind="echo"))
+            out_idx.append(("wb", len(msgs) - 1, i))
+            cur_echo.append(len(msgs) - 1)
         elif e == "WrEnd":
             out_idx.append(("we", None, i))
         elif e == "Reported":
@@ -282,6 +293,22 @@ def run(tier, work):
             ncrash += 1
             verdict.add(sig, [json.dumps(allh[int(ex["id"])])] + scen[int(ex["id"])][1], "driver failure in an output scenario", raw=raw)
     projs = [project(ex) for ex in exs]
+    # the same histories (a sample) with a command nobody takes after every step: the fail message of the configuration
+    # file is printed through add_vmessage(); formatted lengths around its 512-byte buffer
+    nfail = 60 if tier == "quick" else 600
+    fh = allh[:nfail]
+    for L in (510, 511, 512, 1023):
+        ftext = ("F" + "f" * (L - 2) + "!").encode()
+        confL, _ = work.mudlib(name="mudlib_f%d" % L, conf_extra="DefaultFailMsg %s" % ftext.decode())
+        scenL = [("f%d_%d" % (L, i), script_of(h, fail=True)) for i, h in enumerate(fh)]
+        exsL = vlib.run_vdrv(exe, confL, scenL, work, tag="runf%d" % L)
+        for ex, sigs, raw in vlib.confirmed_crashes(exe, confL, scenL, exsL, work):
+            for sig in sigs:
+                ncrash += 1
+                verdict.add(sig, [json.dumps(fh[int(ex["id"].split("_")[1])])], "driver failure in an output scenario (fail message of %d bytes)" % L, raw=raw)
+        exs += exsL
+        allh = allh + fh
+        projs += [project(ex, failtext=ftext) for ex in exsL]
     accepted, nevents, rejects = vlib.validate_executions(SPEC, "OutRingTrace", "OutRingTrace.cfg", projs, work)
     for badi, upto in rejects:
         bad = projs[badi][upto] if upto < len(projs[badi]) else {"e": "?"}
